@@ -38,6 +38,8 @@ func init() {
 		"vParam":     shimParam,
 		"vNow":       func(x *Exec, t *Thread, a []Value, c *callCtx) (Value, nativeStatus) { return x.mkTime(x.readClock()), nDone },
 		"vToken":     shimToken,
+		"vWaitOthers": shimWaitOthers,
+		"vSettle":     shimSettle,
 		"vConcrete":  shimConcrete,
 		"vSameCell":  shimSameCell,
 		"vHeld":      shimHeld,
@@ -318,6 +320,45 @@ func shimParam(x *Exec, t *Thread, a []Value, c *callCtx) (Value, nativeStatus) 
 func shimToken(x *Exec, t *Thread, a []Value, c *callCtx) (Value, nativeStatus) {
 	x.tokens++
 	return Str{K: fmt.Sprintf("%s%04d", x.argStr(a[0]), x.tokens)}, nDone
+}
+
+// vWaitOthers blocks the caller until every other thread has finished (a thread that can never finish
+// makes this a deadlock, which is reported).
+func shimWaitOthers(x *Exec, t *Thread, a []Value, c *callCtx) (Value, nativeStatus) {
+	allDone := func() bool {
+		for _, o := range x.threads {
+			if o != t && !o.done {
+				return false
+			}
+		}
+		return true
+	}
+	if allDone() {
+		return nil, nDone
+	}
+	x.block(t, "waiting for all other threads to finish", allDone)
+	return nil, nBlocked
+}
+
+// vSettle blocks the caller until every other goroutine is finished or blocked (timers excluded):
+// the system has gone quiet and only the passage of time can wake it.
+func shimSettle(x *Exec, t *Thread, a []Value, c *callCtx) (Value, nativeStatus) {
+	quiet := func() bool {
+		for _, o := range x.threads {
+			if o == t || o.done || o.isEnv {
+				continue
+			}
+			if o.blocked == nil || o.blocked() {
+				return false
+			}
+		}
+		return true
+	}
+	if quiet() {
+		return nil, nDone
+	}
+	x.block(t, "waiting for the other threads to settle", quiet)
+	return nil, nBlocked
 }
 
 func shimSameCell(x *Exec, t *Thread, a []Value, c *callCtx) (Value, nativeStatus) {
@@ -754,6 +795,13 @@ const clockMax = uint64(1) << 61
 
 // readClock returns a fresh reading >= the previous one.
 func (x *Exec) readClock() *Term {
+	if x.P.Cfg.PromptClock {
+		// time only passes when a timer fires (see nNewTimer): one symbolic start instant
+		if x.clock == nil {
+			x.clock = x.F.BV(64, 1<<40)
+		}
+		return x.clock
+	}
 	if x.P.Cfg.FixedClock {
 		if x.clock == nil {
 			x.clock = x.F.BV(64, 1<<40)
@@ -825,9 +873,23 @@ func nNewTimer(x *Exec, t *Thread, a []Value, c *callCtx) (Value, nativeStatus) 
 		}
 		tm.armed = false
 		// the clock has reached the due time
-		if !x.P.Cfg.FixedClock {
+		if x.P.Cfg.PromptClock {
+			// prompt environment: the earliest timer fires, exactly when due (or now, if that is later); 1 ns passes
+			for _, o := range x.timers {
+				if o != tm && o.armed {
+					x.assume(x.F.Cmp(OpSle, tm.due, o.due))
+				}
+			}
+			if x.check(nil) != Sat {
+				x.end("infeasible", "")
+			}
+			cur := x.readClock()
+			late := x.F.Cmp(OpSlt, cur, tm.due)
+			x.clock = x.F.Add(x.F.Ite(late, tm.due, cur), x.F.BV(64, 1))
+		} else if !x.P.Cfg.FixedClock {
 			nv := x.readClock()
-			x.assume(x.F.Cmp(OpSle, tm.due, nv))
+			// the channel send happens at or after the due time and the next reading is later still
+			x.assume(x.F.Cmp(OpSlt, tm.due, nv))
 			if x.check(nil) != Sat {
 				x.end("infeasible", "")
 			}
